@@ -1,1 +1,32 @@
 // harnesses for c20
+use vek::vec::repr_c::*;
+use num_traits::*;
+
+mod w {
+    use super::*;
+    #[kani::ensures(|r| match (r, CheckedAdd::checked_add(&a.x, &b.x), CheckedAdd::checked_add(&a.y, &b.y)) {
+        (Some(v), Some(x), Some(y)) => v.x == x && v.y == y,
+        (None, x, y) => x.is_none() || y.is_none(),
+        _ => false,
+    })]
+    pub fn checked_add(a: Vec2<i8>, b: Vec2<i8>) -> Option<Vec2<i8>> { a.checked_add(&b) }
+}
+
+#[kani::proof_for_contract(w::checked_add)]
+fn c20_probe_contract() {
+    let a = Vec2::<i8>::new(kani::any(), kani::any());
+    let b = Vec2::<i8>::new(kani::any(), kani::any());
+    w::checked_add(a, b);
+}
+
+#[kani::proof]
+fn c20_probe_plain() {
+    let a = Vec2::<i8>::new(kani::any(), kani::any());
+    let b = Vec2::<i8>::new(kani::any(), kani::any());
+    let r = a.checked_add(&b);
+    assert!(match (r, CheckedAdd::checked_add(&a.x, &b.x), CheckedAdd::checked_add(&a.y, &b.y)) {
+        (Some(v), Some(x), Some(y)) => v.x == x && v.y == y,
+        (None, x, y) => x.is_none() || y.is_none(),
+        _ => false,
+    });
+}
